@@ -12,4 +12,5 @@ if [ -f lean/Lemmas.lean ]; then
     (cd /opt/veriftools/mathlib4 && lake env lean /verif/lean/Lemmas.lean) && echo "$h" > out/lean.stamp
   fi
 fi
+/venv/bin/python -W ignore replay/validate_model.py
 echo setup-ok
